@@ -190,6 +190,8 @@ def _run_block(args):
                 if len(agg["violations"]) < 50:
                     agg["violations"].append((index, out["violation"]))
                 agg["counters"]["violating_runs"] = agg["counters"].get("violating_runs", 0) + 1
+                vk = "viol:" + out["violation"]["class"]
+                agg["counters"][vk] = agg["counters"].get(vk, 0) + 1
             if index < 3 or (index % 9973 == 0 and len(agg["samples"]) < 2):
                 agg["samples"].append(mod.sample_view(scn, out))
         agg["log_digest"] = agg["log_digest"].hexdigest()
@@ -435,6 +437,9 @@ def run_check(prop, tier, master, workers, runs_override=None, write=True):
     if write:
         ev["wall_s"] = round(time.time() - t0, 2)
         write_evidence(prop, ev)
+    for k, v in sorted(counters.items()):
+        if k.startswith("viol:"):
+            print(f"  violating runs of class {k[5:]}: {v}")
     print(
         f"{prop} tier={tier} seed={master} runs={runs} distinct_nontrivial={distinct} "
         f"violations={len(new_viol)} known={sum(known_hits.values())} wall={time.time() - t0:.1f}s"
